@@ -83,6 +83,10 @@ func (spec Spec) Validate() error {
 	if spec == (Spec{}) {
 		return fmt.Errorf("none of the validations are defined")
 	}
+	// the signer panics in Verify when it has no access key store
+	if spec.Signature != nil && len(spec.Signature.AccessKeys) == 0 {
+		return fmt.Errorf("signature: accessKeys is required")
+	}
 	return nil
 }
 
